@@ -61,6 +61,15 @@ def natPairs : Nat → List String → Option (List (Bytes × Nat) × List Strin
     pure ((db, n) :: l, r)
   | _, _ => none
 
+def rvEntries : Nat → List String → Option (List Vesting.Entry)
+  | 0, _ => some []
+  | k+1, d :: a :: rest => do
+    let db ← unhex d
+    let amt ← (if a = "nil" then some none else (parseInt? a).map some)
+    let r ← rvEntries k rest
+    pure ({ denom := bytesToString db, amount := amt } :: r)
+  | _, _ => none
+
 def withX (s : St) (f : Store → Store) : St × String := ({ s with st := { s.st with x := f s.st.x } }, "ok")
 
 def doCreate (s : St) (verb ty chain cb cv sb sv rev h : String) (extra : List String) : St × String :=
@@ -92,6 +101,18 @@ def step (s : St) (line : String) : St × String :=
   | ["reset"] => (fresh, "ok")
   | ["chainname", n] => match unhex n with | some n => withX s (setChainName · n) | none => bad
   | ["relayer", b] => match unhex b with | some b => withX s (registerRelayer · b) | none => bad
+  | "rvparams" :: via :: en :: k :: rest =>
+    match k.toNat? with
+    | none => bad
+    | some k =>
+      match rvEntries k rest with
+      | none => bad
+      | some es =>
+        let p : RvParams := { enable := en == "1", reward := es }
+        let o := if via == "genesis" then setRvParams p else updateRvParams p p
+        match o with
+        | .ok p' => ({ s with st := { s.st with p := setAll s.st.p (rvParamsKV p') } }, "ok")
+        | _ => (s, "err")
   | "rvinit" :: fv :: nb :: rest =>
     match nb.toNat? with
     | none => bad
